@@ -107,6 +107,9 @@ pub async fn run_seq(role: Role, state: State, seq: &[usize], alpha: &[Tpl], rev
     cfg.max_topic_alias = 8;
     cfg.peer_topic_alias_max = 8;
     cfg.min_chunk_size = 0;
+    // a byte limit on concurrently handled publishes that the 10-byte streamed PUBLISH of the
+    // alphabet exceeds: its chunks have to pass the limiter while its handler is running
+    cfg.max_receive_size = 8;
     cfg.max_send = 8;
     if role == Role::V5Client {
         cfg.connack_props = vec![Prop::U16(0x21, 8)];
